@@ -1510,10 +1510,13 @@ def replay_corpus(entry):
       sink        'case' with a sink plan; shows when close returns OK although the sink failed.
       batch       'case' written, then read through the batch reader ('read' = {mode, batch_size, projection});
                   shows when columns of one batch differ in length or the content differs from the table.
-      history     'case' written, then 'ops' run on column (rg, col); shows when the rows delivered differ."""
+      history     'case' written, then 'ops' run on column (rg, col); shows when the rows delivered differ.
+      note        not executable (e.g. a link-time fact); 'observation' says how it was seen."""
     import pq
     kind = entry["kind"]
     obs = []
+    if kind == "note":
+        return True, entry.get("observation", "(not executable; see title)")
     if kind in ("write_read", "sink", "batch", "history"):
         case = case_from_json(entry["case"])
         p = tmppath()
@@ -1532,7 +1535,8 @@ def replay_corpus(entry):
             r = entry.get("read", {})
             if entry.get("validate"):
                 pf = pq.read_file(data)
-                errs = [v for v in pf.errors() if not entry.get("clauses") or v.clause in entry["clauses"]]
+                pool = pf.validate() if entry.get("include_warn") else pf.errors()
+                errs = [v for v in pool if not entry.get("clauses") or v.clause in entry["clauses"]]
                 obs.append("pq.validate: " + ("; ".join(str(v) for v in errs[:3]) or "no matching violation"))
                 shows = shows or bool(errs)
                 if not entry.get("read"):
